@@ -64,6 +64,10 @@ func (in *Interp) intrinsic(fn *ssa.Function, args []Value) (Value, bool) {
 		v := st.Var(vname, w)
 		in.Nondets = append(in.Nondets, v)
 		return v, true
+	case strings.HasPrefix(name, "zzSymLen"):
+		// func zzSymLenX(n int) []T : a slice of symbolic length n that must never be indexed
+		n := args[0].(*smt.Term)
+		return &SliceVal{SymLen: n}, true
 	case name == "zzAssume":
 		c := args[0].(*smt.Term)
 		in.assume(c)
